@@ -35,10 +35,12 @@ EXPLANATION = (
     "(shared with C12.R5)."
 )
 RULE_TEXT = "one obligation per (rule, site): attribute store on a chunk-like object, plugin class with cross-chunk state, executor submission, fan-out argument, iterator wrapper"
-ASSUMPTIONS = ["receiver names p / plugin / target_plugin / requested_p / plugin_copy / new_c denote plugins or contexts, not chunks (frozen table confirmed by reading)"]
+ASSUMPTIONS = ["an object is recognised as chunk-like by a store to an attribute that only strax.Chunk has (data, start, end, data_type, subruns, superrun, target_size_mb)"]
 
-CHUNK_FIELDS = {"data", "start", "end", "dtype", "data_type", "data_kind", "run_id", "subruns", "superrun", "target_size_mb", "_subruns", "_superrun"}
-NOT_CHUNKS = {"self", "cls", "p", "plugin", "target_plugin", "requested_p", "plugin_copy", "new_c", "plugin_class"}
+# fields that only strax.Chunk has (dtype / data_kind / run_id also exist on plugins and are therefore
+# not used to recognise a chunk by the attribute stored to)
+CHUNK_FIELDS = {"data", "start", "end", "data_type", "subruns", "superrun", "target_size_mb", "_subruns", "_superrun"}
+NOT_CHUNKS = {"self", "cls"}
 
 # function -> reason why it owns the object exclusively
 OWNERS = {
@@ -118,12 +120,13 @@ def _owner_condition(repo, f, st, target):
         base = target.value
         d = Defs(f.node)
         vals = [v for v, s, how in d.defs.get(base.id, []) if v is not None] if isinstance(base, ast.Name) else []
-        if vals and all(isinstance(v, ast.Call) and call_name(v) == "next" and norm(v.args[0]) == "loader" for v in vals):
-            # loader is created from a backend loader in the enclosing function / this function
+        if vals and all(isinstance(v, ast.Call) and call_name(v) == "next" and v.args and isinstance(v.args[0], ast.Name) for v in vals):
+            # the iterator is created from a backend loader in the enclosing function / this function
+            lname = vals[0].args[0].id
             scope = [f] + ([f.parent_func] if f.parent_func else [])
             for g in scope:
                 dd = Defs(g.node)
-                lv = [v for v, s, how in dd.defs.get("loader", []) if v is not None]
+                lv = [v for v, s, how in dd.defs.get(lname, []) if v is not None]
                 if lv and all(isinstance(v, ast.Call) and (call_name(v) or "").endswith(".loader") for v in lv):
                     return True, ""
             return False, "loader is not created here"
@@ -147,7 +150,14 @@ def _owner_condition(repo, f, st, target):
         facts = set()
         for node in cfg.nodes_of(st):
             facts |= cfg.guard_facts(node)
-        ok = ("self.clean_chunk_after_compute", True) in facts and ("n != 1", False) in facts
+        from ..pattern import facts_matching, find
+        ok = ("self.clean_chunk_after_compute", True) in facts
+        rc = False
+        for node in cfg.nodes_of(st):
+            for e, pol, g, b in facts_matching(cfg, node, "L_n != 1", False):
+                if find(f.node, f"{b['L_n']} = sys.getrefcount(E_x.data) - 1"):
+                    rc = True
+        ok = ok and rc
         return ok, "not under clean_chunk_after_compute with the reference-count check"
     return False, "no condition defined"
 
@@ -252,11 +262,13 @@ def r2_stateful_sequential(chk, repo):
                     chk.fail("C01.R2", f, stmt_of(c), "plugin code submits work to an executor outside Plugin.iter")
     tp = repo.func("ThreadedMailboxProcessor.__init__", THREADED)
     tcfg = cfg_of(tp)
-    ex_assign = [n for n in tcfg.stmt_nodes() if isinstance(n.stmt, ast.Assign) and any(norm(t) == "executor" for t in n.stmt.targets) and not (isinstance(n.stmt.value, ast.Constant) and n.stmt.value.value is None)]
+    exn = {norm(kw(c, "executor")) for c in calls_in(tp.node) if isinstance(c.func, ast.Attribute) and c.func.attr == "iter" and isinstance(kw(c, "executor"), ast.Name)}
+    ex_assign = [n for n in tcfg.stmt_nodes() if isinstance(n.stmt, ast.Assign) and any(norm(t) in exn for t in n.stmt.targets) and not (isinstance(n.stmt.value, ast.Constant) and n.stmt.value.value is None)]
     chk.floor("C01.R2", "executor selections in the threaded processor", len(ex_assign), 2)
     for n in ex_assign:
         facts = tcfg.guard_facts(n)
-        chk.check(any(t.startswith("p.parallel") and p for t, p in facts), "C01.R2", tp, n.stmt, "a plugin gets an executor without its parallel flag being set", site_text="ThreadedMailboxProcessor: executor only for parallel plugins")
+        from ..pattern import has_fact
+        chk.check(has_fact(tcfg, n, "L_p.parallel", True) or has_fact(tcfg, n, "L_p.parallel == 'process'", True), "C01.R2", tp, n.stmt, "a plugin gets an executor without its parallel flag being set", site_text="ThreadedMailboxProcessor: executor only for parallel plugins")
     oi = repo.func("OverlapWindowPlugin.__init__", OVERLAP)
     ocfg = cfg_of(oi)
     chk.check(any(isinstance(n.stmt, ast.Raise) and ("self.clean_chunk_after_compute", True) in ocfg.guard_facts(n) for n in ocfg.stmt_nodes()), "C01.R2", oi, None, "OverlapWindowPlugin accepts clean_chunk_after_compute although it caches its inputs", site_text="OverlapWindowPlugin.__init__: rejects clean_chunk_after_compute")
